@@ -12,6 +12,9 @@ REQUIRED = ["DaeVerif.C15.Props." + n for n in (
     "admitting_domain_spec",
     "select_ok_of_selectable",
     "tolerance_invariant_all_sample_histories",
+    "selection_invariants_survive_reload",
+    "captured_fallback_is_a_member",
+    "restore_onto_unrecorded_dialer_is_ok",
     "getMin_respects_exclusion",
     "getMin_excluding_best_is_minimum",
     "random_returns_alive",
@@ -31,6 +34,7 @@ REQUIRED = ["DaeVerif.C15.Props." + n for n in (
     "min_policy_returns_unbeaten_alive_partial",
     "group_invariant_all_histories_partial",
     "select_min_is_unbeaten_partial",
+    "tolerance_invariant_survives_reload_partial",
 )]
 
 
@@ -57,6 +61,24 @@ def compare(op, im, mo):
                 # answer of the Select / SelectWithExclusion wrappers: no admitting domain returned
                 b = set(x.rsplit(":", 1)[0] + ":*" for x in b)
             return len(a) > 0 and a <= b
+        return False
+    if op.startswith("dial "):
+        # routeDial: strictness, number of dials and the callbacks/sets exactly; the last answer as a member
+        mi = re.match(r"^(strict=\S+ dials=\d+) last=(.*?) (cb=.*)$", im)
+        mm = re.match(r"^(strict=\S+ dials=\d+) last=(.*?) (cb=.*)$", mo)
+        if not mi or not mm or mi.group(1) != mm.group(1) or strip_cb(mi.group(3)) != strip_cb(mm.group(3)):
+            return False
+        a, b = mi.group(2), mm.group(2)
+        if a == b:
+            return True
+        if a.startswith("ok ") and b.startswith("ok "):
+            return set(a[3:].split(",")) <= set(b[3:].split(","))
+        return False
+    if op == "capture":
+        # per type: the recorded fallback is one of the nodes a non-strict selection may return
+        if im.startswith("fb=") and mo.startswith("fb="):
+            a, b = im[3:].split(","), mo[3:].split(",")
+            return len(a) == len(b) and all((x == "-" and y == "-") or (x != "-" and x in y.split("/")) for x, y in zip(a, b))
         return False
     if strip_cb(im) == strip_cb(mo):
         return "cb-only"
@@ -148,7 +170,7 @@ def run(ctx):
                     if " inv=" in part and " inv=111" not in part:
                         ctx.report(f"alive-set invariant broken on the implementation after `{op}`: {part[:300]}",
                                    {"stream": label, "line": i + 1, "op": op, "impl": im})
-                if op.startswith(("sel ", "told ", "sample ", "choose ")):
+                if op.startswith(("sel ", "told ", "sample ", "choose ", "dial ", "restore ", "floor")):
                     distinct.add(im)
     # regression guard for fix addc261 (former finding c15-hour-sentinel): stream c15wit, first scenario =
     # group {n0 [add_latency: 1h], n1}, n1 dead for tcp4, n0 probed OK -> n0 must be selected.
@@ -165,6 +187,30 @@ def run(ctx):
     stats = json.load(open(os.path.join(ctx.out, "c15.stats.json")))
     ctx.samples = (stats["samples"] or []) + read_lines(os.path.join(ctx.out, "c15.ops"))[:8]
     ctx.cov["input_distribution"] = stats["counters"]
+    # generator floors (quick-tier values; thorough is far above): below a floor the run proves too little
+    dial_c = json.load(open(os.path.join(ctx.out, "c15dial.stats.json")))["counters"]
+    c = stats["counters"]
+    floors = [
+        ("samples through the real Dialer.Check", c.get("ev.probe_via_check.sample", 0), 100),
+        ("bursts wrapping the latency ring", c.get("ev.burst_over_ring", 0), 40),
+        ("selections through Select/SelectWithExclusion", c.get("sel.via_Select", 0) + c.get("sel.via_SelectWithExclusion", 0), 300),
+        ("RestoreHealthSnapshot events", sum(v for k, v in c.items() if k.startswith("reload.restore.")), 100),
+        ("EnsureReloadSelectionFloor events", c.get("reload.floor", 0), 30),
+        ("full hand-overs (capture, restores, floor)", c.get("reload.handover", 0), 15),
+        ("policy switches", c.get("op.policy_switch", 0), 200),
+        ("selections answered 'no alive'", c.get("sel.noalive", 0), 100),
+        ("last-resort answers", c.get("sel.last_resort", 0), 30),
+        ("cached choice switched to another node", c.get("best.switched", 0), 200),
+        ("routeDial ops", dial_c.get("op.dial", 0), 200),
+        ("routeDial retries after network-unreachable", dial_c.get("dial.retry_after_unreachable", 0), 50),
+        ("re-routed dials (domain++ or control-plane routing)", sum(v for k, v in dial_c.items() if k.startswith("dial.mode_c.out_u.dom_") and not k.endswith("dom_n")) + sum(v for k, v in dial_c.items() if ".out_x." in k), 80),
+    ]
+    ctx.cov["generator_floors"] = [{"what": w, "count": n, "floor": f} for w, n, f in floors]
+    low = [(w, n, f) for w, n, f in floors if n < f]
+    if low:
+        ctx.say("GENERATOR-BELOW-FLOOR " + "; ".join(f"{w}: {n} < {f}" for w, n, f in low))
+        if not ctx.violations and not ctx.proof_failures:
+            return 2   # nothing wrong was seen, but too little was looked at
     ctx.cov["input_distribution_dial"] = json.load(open(os.path.join(ctx.out, "c15dial.stats.json")))["counters"]
     ctx.assumptions = ["histories are generated (seeded): 0..12 nodes, tolerance 0..1000 ns, latencies/offsets boundary-heavy small integers; "
                        "stream c15oob additionally places one node's offset at/around time.Hour (the former sentinel; inside the theorems since fix addc261)",
